@@ -2,6 +2,7 @@
 use serde_json::{json, Value};
 use std::collections::HashSet;
 use tauri_typegen::analysis::dependency_graph::TypeDependencyGraph;
+use tauri_typegen::models::StructInfo;
 use tauri_typegen::build::dependency_resolver::{
     Dependency, DependencyNode, DependencyNodeType, DependencyResolver, DependencyType,
 };
@@ -89,13 +90,28 @@ const KINDS: [DependencyNodeType; 5] = [
     DependencyNodeType::Module,
 ];
 
+/// path spellings: the path is part of a node's identity as written (no normalisation): the same
+/// file spelled with backslashes, a `./` prefix, a doubled slash or another case is another node
+const PATHS: [&str; 10] = [
+    "src/p0.rs",
+    "src/p1.rs",
+    "src/p2.rs",
+    "src\\p0.rs",
+    "./src/p0.rs",
+    "src//p0.rs",
+    "src/P0.rs",
+    "",
+    "src/models/user.rs",
+    "src\\models\\user.rs",
+];
+
 /// node `i` of a history case: identity (name, path, kind) from the case's table
 /// `idents[i] = [name index, path index, kind index]`; distinct nodes may share a name
 fn ident(case: &Value, i: u64) -> DependencyNode {
     match case["idents"].get(i as usize) {
         Some(t) => DependencyNode {
             name: format!("N{}", t[0].as_u64().unwrap()),
-            path: format!("src/p{}.rs", t[1].as_u64().unwrap()),
+            path: PATHS[t[1].as_u64().unwrap() as usize % PATHS.len()].to_string(),
             node_type: KINDS[t[2].as_u64().unwrap() as usize % 5].clone(),
         },
         None => node(i),
@@ -136,6 +152,17 @@ pub fn ghist(case: &Value) -> Value {
     for op in case["ops"].as_array().unwrap() {
         match op[0].as_str().unwrap() {
             "d" => g.add_dependency(name(op[1].as_u64().unwrap()), name(op[2].as_u64().unwrap())),
+            "rt" => g.add_resolved_type(
+                name(op[1].as_u64().unwrap()),
+                StructInfo {
+                    name: name(op[1].as_u64().unwrap()),
+                    fields: Vec::new(),
+                    file_path: "src/lib.rs".to_string(),
+                    is_enum: op[2].as_bool().unwrap_or(false),
+                    serde_rename_all: None,
+                },
+            ),
+            "td" => g.add_type_definition(name(op[1].as_u64().unwrap()), std::path::PathBuf::from("src/lib.rs")),
             "ds" => g.add_dependencies(
                 name(op[1].as_u64().unwrap()),
                 op[2].as_array().unwrap().iter().map(|d| name(d.as_u64().unwrap())).collect(),
